@@ -22,7 +22,8 @@ fn main() {
             let seed: u64 = arg(&args, "--seed").map(|s| s.parse().unwrap()).unwrap_or(1);
             let out = arg(&args, "--out");
             let replay_dir = arg(&args, "--replay-dir").unwrap_or("/verif/replays");
-            let sum = run_prop(&spec, cases, seed, replay_dir);
+            let known: Vec<String> = arg(&args, "--known").map(|s| s.split(',').filter(|x| !x.is_empty()).map(|x| x.to_string()).collect()).unwrap_or_default();
+            let sum = run_prop(&spec, cases, seed, replay_dir, &known);
             let js = serde_json::to_string(&sum).unwrap();
             match out {
                 Some(p) => std::fs::write(p, js).unwrap(),
